@@ -31,7 +31,7 @@ def run_harness(ctx, binary, nshard, env):
 
 
 def strip(t):
-    drop = ("seq", "plan", "err", "rollback", "scen", "held", "faults")
+    drop = ("seq", "plan", "err", "rollback", "scen", "held", "faults", "drain_ms", "rounds")
     return [{k: v for k, v in r.items() if k not in drop} for r in t]
 
 
